@@ -191,6 +191,64 @@ def request_case(lo, hi):
                  "interface results": "proper object or one of 4 error codes"}, max_paths=200000, wall_s=1200)
 
 
+def raw_stream_case():
+    """the packet layer underneath: a first packet that is empty, or holds only a type byte, or a type byte and a
+    truncated request id, arrives through the real _read_packet/_read_all and is followed by a well-formed request;
+    each of the two gets exactly one response and the server keeps serving"""
+    def fn(ctx):
+        import paramiko.sftp_server as SS
+        import paramiko.message as PM
+        from paramiko.sftp import CMD_REALPATH, CMD_NAME, CMD_STATUS
+        n1 = ctx.choice("first-packet-length", [0, 1, 3])
+        first = ctx.bytes("first-packet", n1)
+        sent = []
+        req = PM.Message()
+        req.add_int(77)
+        req.add_string("/x")
+        second = struct.pack(">I", 1 + len(req.asbytes())) + bytes([CMD_REALPATH]) + req.asbytes()
+        stream = [struct.pack(">I", n1)] + ([first] if n1 else []) + [second]
+
+        class Sock:
+            def __init__(self):
+                self.chunks = list(stream)
+
+            def recv(self, n):
+                if not self.chunks:
+                    return b""
+                c = self.chunks[0]
+                out, rest = c[:n], c[n:]
+                if len(rest):
+                    self.chunks[0] = rest
+                else:
+                    self.chunks.pop(0)
+                return out
+
+            def get_name(self):
+                return "c"
+        srv = SS.SFTPServer.__new__(SS.SFTPServer)
+        srv.server = type("SI", (), {"session_started": lambda s: None, "session_ended": lambda s: None,
+                                     "canonicalize": lambda s, p: p,
+                                     "__getattr__": lambda s, name: (lambda *a, **k: 4)})()
+        srv.file_table, srv.folder_table, srv.next_handle = {}, {}, 1
+        srv.ultra_debug = False
+        srv._log = lambda *a, **k: None
+        srv._send_server_version = lambda: None
+        srv._send_packet = lambda t, m: sent.append((t, m.asbytes()))
+        import paramiko.sftp as SFTPMOD
+        import paramiko.util as PU
+        import paramiko.sftp_attr as SA
+        with ctx.patches(std_patches(PM, PU, SA, SS, SFTPMOD, builtins=("int",))):
+            srv.start_subsystem("sftp", None, Sock())
+        ctx.prove(len(sent) == 2, "each-packet-gets-exactly-one-response,also-an-empty-or-truncated-one")
+        if len(sent) >= 1:
+            t, data = sent[-1]
+            r = PM.Message(data)
+            ctx.prove(t == CMD_NAME and lift(r.get_int()) == 77, "the-request-after-a-malformed-packet-is-still-answered")
+    return Case("raw-stream-malformed-then-valid", fn, ["each-packet-gets-exactly-one-response,also-an-empty-or-truncated-one",
+                                                      "the-request-after-a-malformed-packet-is-still-answered"],
+                {"first packet": "length 0, 1 or 3 with symbolic bytes", "second packet": "REALPATH request"}, max_paths=50000)
+
+
 def cases(tier):
-    return [request_case(0, 4), request_case(5, 6), request_case(7, 9), request_case(10, 12), request_case(13, 16),
+    return [raw_stream_case(), request_case(0, 4), request_case(5, 6), request_case(7, 9), request_case(10, 12), request_case(13, 16),
             request_case(17, 20), request_case(21, 199), request_case(200, 200), request_case(201, 255)]
